@@ -111,3 +111,7 @@ class MultiObjectiveProgressTracker(ProgressTracker):
 
     def get_best_individuals(self) -> list[Individual]:
         return self.pareto_front
+
+    def get_best_individual(self) -> Optional[Individual]:
+        """One of the best individuals found so far (the most recent one), or None before any evaluation."""
+        return self.pareto_front[0] if self.pareto_front else None
